@@ -97,3 +97,20 @@ Definition sfield_beq (a b : sfield) : bool :=
   match a, b with FRead, FRead | FModified, FModified | FBound, FBound | FHidden, FHidden => true | _, _ => false end.
 Definition covers_writes (fields : list sfield) : bool :=
   existsb (sfield_beq FRead) fields && existsb (sfield_beq FModified) fields && existsb (sfield_beq FHidden) fields.
+
+(* ---- the wrappers the transpiler generates AROUND the converted entity -------
+     def <outer>():              bound in the globals of the generated module only: user code, which runs with the
+       <closure var> = None      user's globals, never sees it; the dummies are the user's own closure variables
+       def <inner>(ag__):        <inner> is a LOCAL of <outer>: a scope that lexically encloses the user code
+         def <entity>(...):      <entity> is a local of <inner>
+           <converted user code>
+         return <entity>
+       return <inner>
+   The names <entity>, <inner>, <outer> are requested from the namer of the conversion context with the EMPTY
+   reserved set (the entity's name before the requests of the body, the wrappers' after them), so only the
+   namespace of that namer keeps them away from user names.  A name that the user code resolves OUTSIDE the
+   function (a global it reads, in the function itself or in a function / lambda / comprehension nested in it)
+   is captured when a scope that encloses the entity binds that name. *)
+Definition wrapper_requests (roots : list string) : list (string * list qn) := map (fun r => (r, @nil qn)) roots.
+Definition captured (enclosing_bound outside : list string) : list string :=
+  filter (fun x => mem x enclosing_bound) outside.
